@@ -1,4 +1,5 @@
 import PlushModel
+import PlushProofs.Lib.LexerSim
 /-!
   C18 — layout inside code tags is insignificant: whitespace, comments, tag splitting.
   `Gen.isWhitespace`, `Gen.isLetter`, `Gen.isDigit` are TRANSLATED from lexer.go on every run.
@@ -36,7 +37,7 @@ theorem C18_skipWs_step (fuel : Nat) (l : LX) (h : isWhitespace l.ch = true) :
 theorem C18_comment_stops_at_eol (fuel : Nat) (l : LX) (h0 : l.ch ≠ 0)
     (h : l.readChar.ch = 10 ∨ l.readChar.ch = 13) : LX.skipLineComment (fuel + 1) l = l.readChar := by
   have : (l.ch != 0) = true := by simpa using h0
-  rcases h with h | h <;> simp [LX.skipLineComment, this, h]
+  rcases h with h | h <;> simp only [LX.skipLineComment, this, h, if_true] <;> simp
 
 /-- inside a block, tag delimiters between statements are skipped: splitting or merging tags does not
     change the statement list (`blockLoop` on S_START / E_END just advances) -/
@@ -56,5 +57,44 @@ theorem C18_semicolon_optional (s : PS) :
     simp [P.skipSemicolon, P.peekIs, P.peek, P.nextTok, h, bind, StateT.bind, StateT.run, get, getThe,
       MonadStateOf.get, StateT.get, pure, StateT.pure, Except.pure, Except.bind, modify, modifyGet,
       MonadStateOf.modifyGet, StateT.modifyGet]
+
+/-! ### Suffix determinism and layout insignificance of the scanner (proofs in `PlushProofs/Lib/LexerSim.lean`) -/
+
+/-- SUFFIX DETERMINISM. Inside a tag, what `NextToken` returns (token type and text) and what the scanner sees
+    afterwards depend only on the bytes from the cursor on: two scanner states — over different inputs, at
+    different offsets, on different lines — that see the same bytes ahead produce the same token and again see
+    the same bytes ahead. (`LX.Sim`; the line number is the one thing that may differ.) -/
+theorem C18_suffix_determinism (l l' : LX) (hs : LX.Sim l l') :
+    LX.TokSim (LX.nextInsideToken (l.input.size + 2) l) (LX.nextInsideToken (l'.input.size + 2) l') :=
+  LX.nextInsideToken_sim _ _ l l' hs (by omega) (by omega)
+
+/-- LAYOUT IS INSIGNIFICANT INSIDE A TAG (scanner level): any run of spaces, tabs, line ends and `#` line
+    comments in front of a token (`LX.Layout l m`: from `l`, skipping such a run, one arrives at `m`) changes
+    neither the token nor what follows. -/
+theorem C18_layout_insignificant (l m : LX) (h : LX.Layout l m) (w : l.WF) :
+    LX.TokSim (LX.nextInsideToken (l.input.size + 2) l) (LX.nextInsideToken (m.input.size + 2) m) :=
+  LX.layout_insignificant h _ _ w (by omega) (by omega)
+
+/-- … also across two templates: different layout in front of the same remaining text gives the same token -/
+theorem C18_layout_two_templates (l m l' m' : LX) (h : LX.Layout l m) (h' : LX.Layout l' m') (w : l.WF) (w' : l'.WF)
+    (hs : LX.Sim m m') :
+    (LX.nextInsideToken (l.input.size + 2) l).1.type = (LX.nextInsideToken (l'.input.size + 2) l').1.type ∧
+    (LX.nextInsideToken (l.input.size + 2) l).1.lit = (LX.nextInsideToken (l'.input.size + 2) l').1.lit := by
+  have a := LX.layout_insignificant h (l.input.size + 2) (m.input.size + 2) w (by omega) (by omega)
+  have c := LX.nextInsideToken_sim (m.input.size + 2) (m'.input.size + 2) m m' hs (by omega) (by omega)
+  have d := LX.layout_insignificant h' (l'.input.size + 2) (m'.input.size + 2) w' (by omega) (by omega)
+  exact ⟨a.1.trans (c.1.trans d.1.symm), a.2.1.trans (c.2.1.trans d.2.1.symm)⟩
+
+/-- non-vacuity: in ` \n# c\nab` (inside a tag) the layout run ` \n# c\n` leads from offset 0 to the `a` at offset 6 -/
+def c18DemoStart : LX := { (LX.new #[32, 10, 35, 32, 99, 10, 97, 98]) with inside := true }
+def c18DemoEnd : LX := (LX.skipLineComment 10 c18DemoStart.readChar.readChar).readChar
+
+example : LX.Layout c18DemoStart c18DemoEnd ∧ c18DemoEnd.pos = 6 ∧ c18DemoEnd.ch = 97 := by
+  refine ⟨?_, by decide, by decide⟩
+  apply LX.Layout.ws _ _ (by decide)
+  apply LX.Layout.ws _ _ (by decide)
+  apply LX.Layout.comment _ _ (by decide)
+  apply LX.Layout.ws _ _ (by decide)
+  exact LX.Layout.here _
 
 end Plush
